@@ -46,7 +46,8 @@ func caseTagCompiler(node render.BlockNode) (func(io.Writer, render.Context) err
 	if err != nil {
 		return nil, err
 	}
-	cases := []caseInterpreter{}
+	// the else clause applies when no when clause matches, wherever it is written
+	cases, elses := []caseInterpreter{}, []caseInterpreter{}
 	for _, clause := range node.Clauses {
 		switch clause.Token.Name {
 		case "when":
@@ -56,9 +57,10 @@ func caseTagCompiler(node render.BlockNode) (func(io.Writer, render.Context) err
 			}
 			cases = append(cases, exprCase{stmt.When, clause})
 		default: // should be a check for "else", but I like the metacircularity
-			cases = append(cases, elseCase{clause})
+			elses = append(elses, elseCase{clause})
 		}
 	}
+	cases = append(cases, elses...)
 	return func(w io.Writer, ctx render.Context) error {
 		sel, err := ctx.Evaluate(expr)
 		if err != nil {
